@@ -110,6 +110,35 @@ example : (mpf_out_str {} 16 [49] 11).2.out = [48, 46, 49, 64, 49, 49] ∧
     parse (-16) [48, 46, 49, 64, 49, 49] = some ⟨false, 16, [0, 1], 1, 11⟩ ∧
     parse 16 [48, 46, 49, 64, 49, 49] = some ⟨false, 16, [0, 1], 1, 17⟩ := by decide +kernel
 
+/-- `str_stream_roundtrip_base0`: base 0 on both sides — `mpz_out_str` / `mpq_out_str` / `mpf_out_str` write in
+    decimal, `mpz_inp_str` / `mpq_inp_str` with base 0 detect the prefix ("0x", "0b", "0") — gives the same round
+    trip with equal byte counts, for every value, provided what follows the number is not a decimal digit and
+    (this matters only after a lone "0") not one of the letters x, X, b, B, which would be taken for a prefix;
+    `mpf_out_str` with base 0 is `mpf_out_str` with base 10, to which part (f) of `str_stream_roundtrip` applies
+    (read back with base 0, 10 or −10). -/
+theorem str_stream_roundtrip_base0 (rest : List Nat)
+    (hrest : ∀ c, rest.head? = some c → digitValue false c ≥ 10 ∧ c ≠ 120 ∧ c ≠ 88 ∧ c ≠ 98 ∧ c ≠ 66) :
+    (∀ x dest : Int,
+      mpz_inp_str_rd dest ((mpz_out_str {} 0 x).2.out ++ rest) 0 = ((mpz_out_str {} 0 x).1, x, rest)) ∧
+    (rest.head? ≠ some 47 → ∀ (num den : Int) (q : Int × Int),
+      mpq_inp_str_rd q ((mpq_out_str {} 0 num den).2.out ++ rest) 0
+        = ((mpq_out_str {} 0 num den).1, (num, den), rest)) ∧
+    (∀ (nd : Nat) (u : Mpf.F), mpf_out_str_obj {} 0 nd u = mpf_out_str_obj {} 10 nd u) := by
+  refine ⟨?_, ?_, fun nd u => rfl⟩
+  · intro x dest
+    obtain ⟨e1, e2⟩ := mpz_out_str_text 0 x
+    rw [e1, e2]
+    exact mpz_text_roundtrip0 x dest rest hrest
+  · intro hs num den q
+    obtain ⟨e1, e2⟩ := mpq_out_str_text 0 num den
+    rw [e1, e2]
+    exact mpq_text_roundtrip0 num den q rest hrest hs
+
+-- non-vacuity: "0" followed by a blank is zero (1 byte); followed by 'x' it would be the prefix of a hex number
+example : mpz_inp_str_rd 7 ((mpz_out_str {} 0 0).2.out ++ [32]) 0 = (1, 0, [32]) ∧
+    (mpz_inp_str_rd 7 ((mpz_out_str {} 0 0).2.out ++ [120, 49]) 0).2.1 = 1 ∧
+    mpq_inp_str_rd (0, 1) ((mpq_out_str {} 0 0 (-17)).2.out ++ [10]) 0 = (5, (0, -17), [10]) := by decide +kernel
+
 /-! ## 2. The fast paths of mpz_import / mpz_export -/
 
 /-- `import_fast_eq_generic`: whatever the dispatch of import.c:60-90 chooses — MPN_COPY, MPN_BSWAP, MPN_REVERSE for
